@@ -108,7 +108,7 @@ named_json = dict(
     name='BW.named_json', primary='C19', props={'C19'}, kind='L', funcs=[], enforce=None,
     desc='named placeholders through the real pipeline (LOG macros, ManualBackendWorker) into a recording sink (text message, structured pairs) and a real JsonFileSink: text = positional formatting, one pair per argument in order with its own spec, one single-line JSON object per statement with the original template and the pairs - first use and cached use of each template',
     native=dict(cpp='named_json.cpp', file='include/quill/backend/BackendWorker.h', function='BackendWorker::{_populate_formatted_named_args,_process_named_args_format_message,_format_and_split_arguments}, JsonSink::{write_log,generate_json_message}', defs_quick=[], defs_thorough=[]),
-    bounded=dict(bound='8 templates x 27 value tuples x 2 orders x 2 passes', form='b'),
+    bounded=dict(bound='8 templates x 27 value tuples x 2 orders x 2 passes + the 64 ordered pairs of templates back to back', form='b'),
     dropped=[], trusted=['g++ / libstdc++ / fmt execute the real frontend, backend and sink'], min_obligations=1, timeout=900)
 UNITS += [named_json]
 level_filter = dict(
